@@ -81,7 +81,7 @@ func init() {
 	generators["Steps"] = func() {
 		lp := loadDir(filepath.Join(*repo, "internal", "linker"))
 		patch := findFunc(lp, "PatchLinker")
-		linkerSteps := callsInOrder(patch.Body, map[string]bool{"Lock": true, "checkVersion": true, "fileExists": true, "applyPatches": true, "buildLinker": true, "writeVersion": true})
+		linkerSteps := callsInOrder(patch.Body, map[string]bool{"Lock": true, "checkVersion": true, "fileExists": true, "applyPatches": true, "Remove": true, "buildLinker": true, "writeVersion": true})
 		mp := loadDir(*repo)
 		mainErr := findFunc(mp, "mainErr")
 		// the toolexec branch: PatchLinker, the deferred unlock, and the run of the real tool
